@@ -80,6 +80,8 @@ def _merge(results):
             dd = m['dims'].setdefault(dname, {})
             for k, v in d.items():
                 dd[k] = dd.get(k, 0) + v
+        for v in r['violations']:
+            v.setdefault('shard', r.get('_shard_index'))
         m['violations'].extend(r['violations'])
         if len(m['samples']) < 6:
             m['samples'].extend(r['samples'][:2])
@@ -111,6 +113,22 @@ def _worker_run(args):
         return idx, acc.export(), None
     except Exception:
         return idx, None, 'shard %r\n%s' % (shard, traceback.format_exc())
+
+
+def _shard_violations(args):
+    prop, shard = args
+    _worker_init(prop)
+    acc = _MOD.run_shard(shard)
+    return acc.violations
+
+
+def _shard_in_fresh_process(prop, shard):
+    ctx = multiprocessing.get_context('spawn')
+    try:
+        with ctx.Pool(1) as pool:
+            return pool.apply(_shard_violations, ((prop, shard),))
+    except Exception:
+        return None
 
 
 def load_known():
@@ -148,7 +166,10 @@ def run_check(prop, tier, seed, replay_path=None, jobs=None):
     if replay_path:
         case = json.load(open(replay_path))
         case = case.get('case', case)
-        viols = mod.replay(case)
+        if isinstance(case, dict) and 'shard' in case and case.get('history_dependent'):
+            viols = _shard_in_fresh_process(prop, case['shard']) or []
+        else:
+            viols = mod.replay(case)
         unknown = [v for v in viols if not match_known(prop, _mk(v), known)]
         for v in viols:
             print('replay: %s: %s' % (v['kind'], v['detail']))
@@ -179,6 +200,8 @@ def run_check(prop, tier, seed, replay_path=None, jobs=None):
     if errors:
         sys.stderr.write('HARNESS ERROR in %d shard(s):\n%s\n' % (len(errors), errors[0]))
         return 2
+    for i, r in enumerate(results):
+        r['_shard_index'] = i
     merged = _merge(results)          # shard order => deterministic
 
     # vacuity guards / extra coverage from the property module
@@ -214,8 +237,18 @@ def run_check(prop, tier, seed, replay_path=None, jobs=None):
             sys.stderr.write('HARNESS ERROR: replay of %r is not deterministic\n' % (v['case'],))
             return 2
         if not r1:
-            sys.stderr.write('HARNESS ERROR: violation does not reproduce on replay: %r\n' % (v,))
-            return 2
+            # The case fails only after the operations that preceded it in its shard (state kept by the library between
+            # calls, e.g. a module-level cache).  Re-run the whole shard twice in fresh processes: if the same violation
+            # recurs both times it is a deterministic, history-dependent violation and the shard is its replay.
+            sh = shards[v['shard']] if v.get('shard') is not None else None
+            again = [_shard_in_fresh_process(prop, sh) for _ in range(2)] if sh is not None else [None, None]
+            keys = [sorted(json.dumps(w['sig'], sort_keys=True, default=_json_default) for w in (a or [])) for a in again]
+            mykey = json.dumps(v['sig'], sort_keys=True, default=_json_default)
+            if again[0] is None or keys[0] != keys[1] or mykey not in keys[0]:
+                sys.stderr.write('HARNESS ERROR: violation does not reproduce on replay: %r\n' % (v,))
+                return 2
+            v['case'] = {'shard': sh, 'history_dependent': True, 'first_failing_case': v['case']}
+            v['detail'] += ' [fails only after the preceding operations of its shard: state kept between calls]'
         h = hashlib.sha1(json.dumps(v['case'], sort_keys=True, default=_json_default).encode()).hexdigest()[:12]
         path = os.path.join(VERIF, 'replays', 'run', '%s-%s.json' % (prop, h))
         with open(path, 'w') as f:
